@@ -6,6 +6,7 @@ field here), Model/Lagrange.lean.  Lemmas: Lemmas/Frost.lean (Mathlib: modules, 
 import BandVerif.Lemmas.Frost
 import BandVerif.Model.Lagrange
 import BandVerif.Model.FrostSrc
+import BandVerif.Lemmas.GroupOrderPrime
 
 namespace C03
 open BandVerif BandVerif.Frost Polynomial Finset
@@ -46,6 +47,15 @@ theorem generated_tables_correct :
     (Generated.Frost.PRECOMPUTED_POWERS.map fun e => (e.1, e.2.length)) = [(2, 19), (3, 9), (5, 5), (7, 3), (11, 2), (13, 2), (17, 2), (19, 2)] ∧
     ((List.range 20).map (· + 1)).foldl (· * ·) 1 < 2 ^ 63 := by
   refine ⟨by decide, by decide, by decide, by decide, by decide, by decide, by decide⟩
+
+/-- the scalar structure the theorems below are stated for EXISTS for the curve in use: the regenerated group order is a
+    prime (Pratt certificate, Lemmas/GroupOrderPrime.lean), so the scalars `ZMod groupOrder` form a field.  (That the
+    curve points form a module over it whose base point has trivial annihilator is the elliptic-curve fact that remains
+    assumed.) -/
+theorem scalars_form_a_field : Nat.Prime Generated.Frost.groupOrder ∧ Pratt.groupOrder = Generated.Frost.groupOrder :=
+  ⟨Pratt.groupOrder_prime, rfl⟩
+
+noncomputable example : Field (ZMod Pratt.groupOrder) := inferInstance
 
 variable {F V : Type} [Field F] [DecidableEq F] [AddCommGroup V] [Module F V] [DecidableEq V]
 
